@@ -3,6 +3,11 @@ EXTENDS Memo
 mc_NoDev == {}
 mc_Dev == {"D_none_separator"}
 mc_Vals == {"N", "s:a", "i:1", "f:1"}
+mc_Vals3 == {"N", "s:a", "i:1"}
 mc_Names == {"a", "b"}
-Inv == NoSharedEntryAll /\ SameCallSameKey
+mc_DevOrder == {"D_types_in_call_order"}
+mc_DevName == {"D_short_name"}
+Inv == NoSharedEntryAll /\ SameCallSameKey /\ DistinctFunctionsDistinctNames
+InvSame == SameCallSameKey
+InvNames == DistinctFunctionsDistinctNames
 ====
